@@ -518,6 +518,7 @@ func (x *Exec) evalMath(name string, args []Value, st *State, e *ast.CallExpr) (
 		x.domainSafety(st, Gt(an, zero), e, "log argument positive")
 		x.mathAxiom("log(x) <= x - 1 for x > 0", Implies(Gt(an, zero), Le(p, Sub(an, one))))
 		x.mathAxiom("log(x) >= 0 for x >= 1", Implies(Ge(an, one), Ge(p, zero)))
+		x.mathAxiom("log(x) > 0 for x > 1", Implies(Gt(an, one), Gt(p, zero)))
 		x.mathAxiom("log(x) <= 0 for 0 < x <= 1", Implies(And(Gt(an, zero), Le(an, one)), Le(p, zero)))
 		return r(p)
 	case "Log10":
